@@ -41,6 +41,8 @@ func runC18(c *core.Ctx) {
 	}
 	c.Floor("C18.1 codec (pairs)", len(pairs), 12)
 	h.decodersRejectOnlyReadFailures("C18.1e decoders-reject-only-read-failures")
+	h.decodersAssignCollections("C18.1f decoders-assign-collections")
+	h.decodersUseFreshElements("C18.1g decoders-fresh-elements")
 	h.configCodec("C18.1b config-codec")
 	c.Clause("C18.2 primitive widths and byte order agree; isEntryBuffered header length")
 	h.primitiveLayer("C18.2 primitives")
@@ -1021,4 +1023,119 @@ func flowsToReturn(v ssa.Value) bool {
 		}
 	}
 	return false
+}
+
+// decodersAssignCollections (C18.1f): a decoder that fills a map or slice field
+// of its receiver must (re)assign that field on every path that reports
+// success — an early `return nil` for "zero elements" leaves the receiver's
+// old contents (or a nil map the caller then writes into) where the encoder
+// wrote an empty collection.
+func (h H) decodersAssignCollections(rule string) {
+	exempt := map[string]string{
+		"(*Info).decode Followers": "a leader without followers encodes an empty map and decodes to nil; Info is a report that is only read (kept as the code has it)",
+	}
+	n := 0
+	for _, fn := range h.P.Funcs() {
+		if fn.Pkg == nil || fn.Pkg.Pkg.Name() != "raft" || fn.Name() != "decode" || fn.Signature.Recv() == nil || len(fn.Params) == 0 {
+			continue
+		}
+		fi := h.P.Info(fn)
+		recv := fn.Params[0]
+		type fld struct {
+			name   string
+			stores []ssa.Instruction
+		}
+		fields := map[string]*fld{}
+		core.Instrs(fn, func(in ssa.Instruction) {
+			st, ok := in.(*ssa.Store)
+			if !ok {
+				return
+			}
+			fa, ok := st.Addr.(*ssa.FieldAddr)
+			if !ok || fa.X != ssa.Value(recv) {
+				return
+			}
+			switch st.Val.Type().Underlying().(type) {
+			case *types.Map, *types.Slice:
+			default:
+				return
+			}
+			nm := fieldName(fa)
+			if fields[nm] == nil {
+				fields[nm] = &fld{name: nm}
+			}
+			fields[nm].stores = append(fields[nm].stores, in)
+		})
+		for _, f := range fields {
+			n++
+			bad := ""
+			for _, r := range core.Returns(fn) {
+				last := r.Results[len(r.Results)-1]
+				if !isNilConst(last) && fi.Sym(last).String() != "nil" {
+					continue
+				}
+				dom := false
+				for _, s := range f.stores {
+					if core.Dominates(s, r) {
+						dom = true
+					}
+				}
+				if !dom && bad == "" {
+					bad = h.pos(r)
+				}
+			}
+			key := h.name(fn) + " " + f.name
+			if why, ok := exempt[key]; ok && bad != "" {
+				h.C.Check(rule, key, true, h.fpos(fn), "accepted: "+why)
+				continue
+			}
+			h.C.Check(rule, key, bad == "", bad, "the decoder can report success without assigning its receiver's collection field "+f.name+" (a zero-element value decodes into whatever the receiver held, or into a nil map)")
+		}
+	}
+	h.C.Floor(rule+" (collection fields of decoders)", n, 2)
+}
+
+// decodersUseFreshElements (C18.1g): an element decoder may leave fields it
+// does not find on the wire untouched (Replication.decode assigns Unreachable
+// and Err only when present); that is a faithful decoding only into a zero
+// receiver. A decoder that reads a sequence of elements in a loop therefore
+// decodes each into a receiver created in that iteration.
+func (h H) decodersUseFreshElements(rule string) {
+	n := 0
+	for _, fn := range h.P.Funcs() {
+		if fn.Pkg == nil || fn.Pkg.Pkg.Name() != "raft" || fn.Blocks == nil {
+			continue
+		}
+		hds := core.LoopHeaders(fn)
+		if len(hds) == 0 {
+			continue
+		}
+		core.Instrs(fn, func(in ssa.Instruction) {
+			c, ok := in.(*ssa.Call)
+			if !ok {
+				return
+			}
+			sc := c.Common().StaticCallee()
+			if sc == nil || sc.Name() != "decode" || sc.Signature.Recv() == nil || len(c.Common().Args) == 0 {
+				return
+			}
+			var hd *ssa.BasicBlock
+			for _, x := range hds {
+				if core.InLoop(x, in.Block()) {
+					hd = x
+				}
+			}
+			if hd == nil {
+				return
+			}
+			al, ok := c.Common().Args[0].(*ssa.Alloc)
+			if !ok {
+				return // a field or element of something else: not a reused local
+			}
+			n++
+			fresh := core.InLoop(hd, al.Block()) && al.Block() != hd || al.Block() == in.Block()
+			h.C.Check(rule, fmt.Sprintf("%s → %s receiver %s", h.name(fn), h.name(sc), al.Comment), fresh, h.pos(in), "the elements of a sequence are decoded into one receiver that outlives the iteration: fields an element does not carry keep the previous element's values")
+		})
+	}
+	h.C.Floor(rule+" (element decoders in loops)", n, 2)
 }
